@@ -1298,6 +1298,32 @@ namespace vh
               printDense(o, store[s]->variables_);
               return o.os.str();
             }
+            if (op == "solvex")
+            {
+              // advance a State with the OTHER solver object (same mechanism, same State type): allowed whenever that
+              // solver does not need more stage vectors than the State owns (both Rosenbrock, other.stages <= own.stages)
+              auto s = t.nat();
+              double dt = t.flt();
+              if (!store[s])
+                return "nostate";
+              if constexpr (std::is_same_v<S1, S2> && std::is_base_of_v<micm::RosenbrockSolverParameters, ParamsT>)
+              {
+                std::size_t own = owner[s] == 0 ? params.stages_ : params2.stages_;
+                std::size_t oth = owner[s] == 0 ? params2.stages_ : params.stages_;
+                if (oth > own)
+                  return "skip";
+                auto res = owner[s] == 0 ? sv2->Solve(dt, *store[s]) : sv1->Solve(dt, *store[s]);
+                Out o;
+                o.os << statusName(res.state_) << ' ' << hexd(res.final_time_) << ' ' << res.stats_.function_calls_ << ','
+                     << res.stats_.jacobian_updates_ << ',' << res.stats_.number_of_steps_ << ',' << res.stats_.accepted_ << ','
+                     << res.stats_.rejected_ << ',' << res.stats_.decompositions_ << ',' << res.stats_.solves_ << ' ';
+                o.first = true;
+                printDense(o, store[s]->variables_);
+                return o.os.str();
+              }
+              else
+                return "skip";
+            }
             if (op == "dump")
             {
               auto s = t.nat();
